@@ -34,7 +34,7 @@ for name in sorted(os.listdir(SEEDED)):
     try:
         for chk in [prop] + meta.get("also_checks", []):
             t0 = time.time()
-            rc, out = sh("VERIF_SEED=1 bin/vcheck %s quick" % chk, cwd="/verif")
+            rc, out = sh("VERIF_EVIDENCE_DIR=/verif/.build/evidence-changed-tree VERIF_SEED=1 bin/vcheck %s quick" % chk, cwd="/verif")
             keys = sorted(set(l.split("key=")[1].split()[0] for l in out.splitlines() if "VERIF-FINDING" in l and "key=" in l))
             r["checks"][chk] = {"exit": rc, "wall_s": round(time.time() - t0, 1), "finding_keys": keys[:6]}
     finally:
